@@ -73,7 +73,31 @@ class Atom:
         return (Atom, (self.n,))
 
 
+# every fifth element id stands for a FALSY stored value (None, False, "", 0.0): the values on which `item is None` / `if not item`
+# short-cuts in a backend go wrong.  Several ids share one such value, so both sides are compared through `lab`.
+FALSY = [None, False, "", 0.0]
+
+
+def lab(n):
+    return f"F{(n // 5) % 4}" if isinstance(n, int) and not isinstance(n, bool) and n % 5 == 0 else n
+
+
+def relabel(o):
+    """a model observation with element ids -> the same with falsy ids replaced by their label"""
+    if isinstance(o, dict):
+        return {k: (relabel_v(v) if k in ("v", "flat") else v) for k, v in o.items()}
+    return o
+
+
+def relabel_v(v):
+    if isinstance(v, list):
+        return [relabel_v(x) for x in v]
+    return lab(v)
+
+
 def atom(n: int):
+    if n % 5 == 0:
+        return FALSY[(n // 5) % 4]
     k = n % 3
     return Atom(n) if k == 0 else (n if k == 1 else f"s{n}")
 
@@ -83,6 +107,14 @@ def atom_id(x):
         return "masked"
     if type(x) is Atom:
         return x.n
+    if x is None:
+        return "F0"
+    if x is False:
+        return "F1"
+    if isinstance(x, str) and x == "":
+        return "F2"
+    if isinstance(x, float) and x == 0.0:
+        return "F3"
     if isinstance(x, (bool, np.bool_)):
         return f"?bool:{x}"
     if isinstance(x, (int, np.integer)):
@@ -502,7 +534,7 @@ def evaluate(case, base, tag, backends):
     ref, robs = Ref(g), []
     for op in ops:
         mop = model_op(op)
-        robs.append(ref.step(mop) if len(key_problems(mop, g)) <= 1 else None)
+        robs.append(relabel(ref.step(mop)) if len(key_problems(mop, g)) <= 1 else None)
     return impl, robs
 
 
@@ -583,7 +615,7 @@ def check_cases(ctx, cases, base, label):
     outs = ctx.lean(reqs)
     shrink_counter = [0]
     for (case, impl, robs), resp in zip(kept, outs):
-        model = resp["r"]
+        model = {k: [relabel(o) for o in v] for k, v in resp["r"].items()}
         g, ops = case["geom"], case["ops"]
         ctx.count(f"stream:{label}")
         ctx.count("mask:" + "".join("E" if m else "I" for m in g["mask"]))
